@@ -11,8 +11,10 @@ Oracle per cell: linear min(a+b, 2^32-1); log: exact sum inside the reserved
 range, the maximum counter once the decoded sum reaches max_count, otherwise the
 counter whose decoded value is nearest to decode(a)+decode(b) (a tie within 1e-9
 accepts either neighbour).  decode() is read off the real sketch (query on a
-one-cell sketch).  Also: b unchanged, bookkeeping summed, commutativity,
-identity, monotonicity, linear estimates super-additive.
+one-cell sketch).  Also: b unchanged, bookkeeping summed (also for an argument
+whose element counter is 0), commutativity, identity, monotonicity, linear
+estimates super-additive; the same (max_count, num_reserved) used by both
+counter widths in one process; tables wider than 4096 columns.
 """
 import numpy as np
 
@@ -69,8 +71,18 @@ def expected_log(dec, nr, mc, A, B):
     return lo, hi
 
 
+PRE = []  # (kind, mc, nr) of log merges done earlier in this process, for replays
+
+
+def _pre(kind, mc, nr):
+    return [list(x) for x in PRE if x[0] != kind and (x[1], x[2]) == (mc, nr)][:2]
+
+
 def check_log(rep, kind, mc, nr, A, B, tag):
     """A, B: 2-d integer arrays of counters.  One real merge; every cell checked."""
+    pre = [list(x) for x in PRE if x[0] != kind and (x[1], x[2]) == (mc, nr)][:2]
+    if (kind, mc, nr) not in PRE:
+        PRE.append((kind, mc, nr))
     dec = decode_table_cached(kind, mc, nr)
     d, w = A.shape
     a = SK.make(kind, w, d, mc, nr)
@@ -89,7 +101,8 @@ def check_log(rep, kind, mc, nr, A, B, tag):
     if bad.any():
         i, j = (int(x) for x in np.argwhere(bad)[0])
         rep.violation(
-            {"kind": "log", "kind_": kind, "mc": mc, "nr": nr, "a": int(A[i, j]), "b": int(B[i, j])},
+            {"kind": "log", "kind_": kind, "mc": mc, "nr": nr, "a": int(A[i, j]), "b": int(B[i, j]),
+             "shape": [int(d), int(w)], "pos": [i, j], "pre": pre},
             f"{kind}(max_count={mc}, num_reserved={nr}): merge of counters {int(A[i,j])} and "
             f"{int(B[i,j])} gives {int(R[i,j])}, nearest-value rule gives {int(lo[i,j])}"
             + (f" or {int(hi[i,j])}" if hi[i, j] != lo[i, j] else "")
@@ -99,12 +112,13 @@ def check_log(rep, kind, mc, nr, A, B, tag):
     if mono.any():
         i, j = (int(x) for x in np.argwhere(mono)[0])
         rep.violation(
-            {"kind": "log", "kind_": kind, "mc": mc, "nr": nr, "a": int(A[i, j]), "b": int(B[i, j])},
+            {"kind": "log", "kind_": kind, "mc": mc, "nr": nr, "a": int(A[i, j]), "b": int(B[i, j]),
+             "shape": [int(d), int(w)], "pos": [i, j], "pre": pre},
             f"{kind}({mc},{nr}): merged counter {int(R[i,j])} is below an input "
             f"({int(A[i,j])}, {int(B[i,j])})",
         )
     if (b.cms.tobytes(), b.n_added_records.tobytes()) != b_before:
-        rep.violation({"kind": "log-b", "kind_": kind, "mc": mc, "nr": nr},
+        rep.violation({"kind": "log-b", "kind_": kind, "mc": mc, "nr": nr, "pre": pre},
                       f"{kind}({mc},{nr}): merge changed its argument")
     if tuple(int(x) for x in a.n_added_records) != (18, 5):
         rep.violation({"kind": "log-n", "kind_": kind, "mc": mc, "nr": nr},
@@ -117,7 +131,7 @@ def check_log(rep, kind, mc, nr, A, B, tag):
     b.n_added_records[:] = (0, 2)
     a2.merge(b)
     if not np.array_equal(a2.cms, a.cms) or tuple(int(x) for x in a2.n_added_records) != (11, 5):
-        rep.violation({"kind": "log-n0", "kind_": kind, "mc": mc, "nr": nr},
+        rep.violation({"kind": "log-n0", "kind_": kind, "mc": mc, "nr": nr, "pre": pre},
                       f"{kind}({mc},{nr}): merging a sketch whose n_added() is 0 (n_records 2, "
                       f"non-empty table) does not add its cells / records: bookkeeping "
                       f"{a2.n_added_records}, cells equal: {bool(np.array_equal(a2.cms, a.cms))}")
@@ -142,12 +156,12 @@ def log8_all_pairs(rep, mc, nr):
     if not np.array_equal(R, R.T):
         i, j = (int(x) for x in np.argwhere(R != R.T)[0])
         rep.violation({"kind": "log", "kind_": "log8", "mc": mc, "nr": nr, "a": i, "b": j,
-                       "commut": True},
+                       "commut": True, "pre": _pre("log8", mc, nr)},
                       f"log8({mc},{nr}): merge is not commutative for counters {i},{j}: "
                       f"{int(R[i,j])} vs {int(R[j,i])}")
     if not np.array_equal(R[:, 0], I) or not np.array_equal(R[0, :], I):
         rep.violation({"kind": "log", "kind_": "log8", "mc": mc, "nr": nr, "a": 0, "b": 0,
-                       "identity": True},
+                       "identity": True, "pre": _pre("log8", mc, nr)},
                       f"log8({mc},{nr}): merging with an empty counter changes the value")
     rep.nontrivial(("log8", mc, nr))
     return 65536
@@ -163,7 +177,7 @@ def log16_band(rep, mc, nr, rows):
     if not np.array_equal(R, R2):
         i, j = (int(x) for x in np.argwhere(R != R2)[0])
         rep.violation({"kind": "log", "kind_": "log16", "mc": mc, "nr": nr, "a": int(A[i, j]),
-                       "b": int(B[i, j]), "commut": True},
+                       "b": int(B[i, j]), "commut": True, "pre": _pre("log16", mc, nr)},
                       f"log16({mc},{nr}): merge not commutative for {int(A[i,j])},{int(B[i,j])}")
     rep.nontrivial(("log16", mc, nr, len(rows)))
     return 2 * A.size
@@ -301,7 +315,7 @@ def run(rep):
         cells += 65536
         if not np.array_equal(R, J):
             rep.violation({"kind": "log", "kind_": "log16", "mc": mc, "nr": nr, "a": 1, "b": 0,
-                           "identity": True},
+                           "identity": True, "pre": _pre("log16", mc, nr)},
                           f"log16({mc},{nr}): merging an empty sketch changes counters")
     rep.part("log16", configurations=len(g16))
     if rep.tier == "thorough":
@@ -317,6 +331,21 @@ def run(rep):
         cells += tot
         rep.part("log16_all_pairs_default", pairs=tot)
         rep.nontrivial(("log16-full", tot))
+    # the same (max_count, num_reserved) pair used by BOTH counter widths in one process,
+    # 16-bit first (anything keyed on the pair alone must not leak between the two types)
+    for mc, nr in ((10**6, 2), (2**32 - 1, 15)):
+        rows = band_rows(nr, 24, salt)
+        cells += log16_band(rep, mc, nr, rows)
+        cells += log8_all_pairs(rep, mc, nr)
+    # wide tables (more columns than any internal block size; not a multiple of 4096)
+    rng = np.random.default_rng(rep.seed + 9)
+    for kind, top, w, d in (("log8", 255, 5000, 3), ("log16", 65535, 10000, 2), ("log8", 255, 4097, 1)):
+        A = rng.integers(0, top + 1, (d, w))
+        B = rng.integers(0, min(top, 300) + 1, (d, w))
+        A[:, -3:] = (1, 2, top)
+        R = check_log(rep, kind, 2**32 - 1, 15 if kind == "log8" else 1023, A, B, f"wide {w}x{d}")
+        cells += A.size
+        rep.nontrivial(("wide", kind, w))
     cells += linear_part(rep)
     rep.set("states", cells)
     rep.set("transitions", cells)
@@ -344,15 +373,30 @@ def replay(case):
                 pass
 
         r = R(max_violations=100)
-        A = np.array([[case["a"], case["b"]]])
-        B = np.array([[case["b"], case["a"]]])
+        PRE.clear()
+        # merges of the OTHER counter width with the same (max_count, num_reserved) that
+        # happened earlier in the process are part of the history
+        for pk, pmc, pnr in case.get("pre", []):
+            check_log(r, pk, pmc, pnr, np.array([[1, 2]]), np.array([[2, 1]]), "replay-pre")
+        r.violations = []
+        d, w = case.get("shape", [1, 2])
+        i, j = case.get("pos", [0, 0])
+        A = np.zeros((d, w), np.int64)
+        B = np.zeros((d, w), np.int64)
+        A[i, j], B[i, j] = case["a"], case["b"]
+        if (d, w) == (1, 2):
+            A[0, 1], B[0, 1] = case["b"], case["a"]
         R_ = check_log(r, case["kind_"], case["mc"], case["nr"], A, B, "replay")
-        bad = bool(r.violations) or (case.get("commut") and R_[0, 0] != R_[0, 1])
+        bad = bool(r.violations)
+        if case.get("commut"):
+            A2, B2 = B.copy(), A.copy()
+            R2_ = check_log(r, case["kind_"], case["mc"], case["nr"], A2, B2, "replay")
+            bad = bad or int(R_[i, j]) != int(R2_[i, j])
         if case.get("identity"):
             J = np.arange(len(decode_table_cached(case["kind_"], case["mc"], case["nr"])))[None, :]
             R2 = check_log(r, case["kind_"], case["mc"], case["nr"], J, np.zeros_like(J), "identity")
             bad = bad or not np.array_equal(R2, J)
-        return bool(bad), {"merged": R_.tolist(), "problems": [m for _, m in r.violations][:3]}
+        return bool(bad), {"merged": int(R_[i, j]), "problems": [m for _, m in r.violations][:3]}
     # linear and bookkeeping cases: rerun the linear part
     from ..pool import SubReporter
 
